@@ -65,6 +65,32 @@ def _replay(ctx, data):
 budgets.replay_name, budgets.replay = "budgets", _replay
 
 
+def cache_pairs(ctx, results):
+    """use_cache=True: two problems with different objectives in one process, same seed and box: each run's reported best is the best value
+    its own objective returned"""
+    import copy
+    from .. import gen, monitors, rec
+    rng = random.Random(ctx.seed + 444)
+    viol, n = [], ctx.n(6, 60)
+    for _ in range(n):
+        seed = rng.randrange(1, 2 ** 31)
+        a = gen.gen_spec(seed, wrappers="cache", cap_evals=400, height=rng.choice([1, 2]), objective_kind=rng.choice(["sphere", "rastrigin"]))
+        b = copy.deepcopy(a)
+        b["objective"] = gen.gen_objective(random.Random(seed + 1), a["dim"], a["box"], a["maximize"], "funnel")
+        for spec in (a, b):
+            r = rec.run_spec(spec)
+            for v in monitors.c04(r)[:1]:
+                viol.append(dict(v, what=("use_cache=True, second problem in the same process: " if spec is b else "") + v["what"], seed=seed, spec=spec, replay_fn="cache"))
+    return {"violations": viol[:4], "evaluations": 2 * n, "distinct_nontrivial": n, "notes": {"cached_problem_pairs": n}}
+
+
+def _replay_cache(ctx, data):
+    return False, "cache pair: " + str(data.get("what"))[:400]
+
+
+cache_pairs.replay_name, cache_pairs.replay = "cache", _replay_cache
+
+
 def nontrivial(r):
     return r["stats"].get("demes", 0) > 1 and r["stats"].get("metaepochs", 0) >= 2
 
@@ -77,5 +103,5 @@ _whole.install(globals(), "C04",
                     "minimize() budget ladders (fun = min of everything returned, call log of the smaller budget is a prefix, never a worse result).",
                note="The whole-run budget-prefix corollary is closed by the differential ladders (partial: the theorem covers the cutoff wrapper's forwarding law, C16). " + _whole.HIST_NOTE,
                technique="Coq theorems on best-of / selection models + history-machine invariant + vm_compute trace replay + brute-force monitor and budget ladders on the real package",
-               quick=200, thorough=5000, nontrivial=nontrivial, machine_replay=False, hist_replay=True, extra_checks=[budgets],
+               quick=200, thorough=5000, nontrivial=nontrivial, machine_replay=False, hist_replay=True, extra_checks=[budgets, cache_pairs],
                forces=[(3, {"cap_evals": 900}), (1, {"cap_evals": 900, "maximize": True}), (1, {"cap_evals": 900, "height": 2, "engines": ["SEA", "CMA"]})])
